@@ -456,7 +456,7 @@ def main():
                   trusted_base=trusted_base(gen_lines),
                   backend='Verus 0.2026.09.13 / Z3 (bundled with Verus)', solver_ms=sum(v['ms'] for v in fnres.values()),
                   functions_under_contract=sorted(set('%s::%s' % (o['module'], o['fn'].split('/')[0]) for o in obl)),
-                  views_not_under_contract=rep['uncontracted'],
+                  views_not_under_contract=rep['uncontracted'], views_without_clone=rep.get('not_clonable', []), views_with_handwritten_clone=rep.get('clone_unverified', []),
                   functions_verified=len([v for v in fnres.values() if v['ok']]), functions_failed=[k for k, v in fnres.items() if not v['ok']],
                   property_lemmas=lemma_fns,
                   source_hashes={'%s::%s' % (f['module'], f['fn']): f['sha256'] for f in rep['functions'] if ('views::' + f['module']) in mods},
@@ -486,7 +486,7 @@ def main():
         print('VIOLATION property=%s replay=%s%s' % (pid, rp, '' if found else ' no-failing-input-found'))
         sys.exit(1)
     if pid == 'C17' and rep.get('clone_unverified') and not violation:
-        print('MACHINERY: %s implement Clone by hand (or not at all): the clone clause of C17 is outside the supported subset (M4 covers #[derive(Clone)] only) and the bounded search found no failing input: undecided' % sorted(rep['clone_unverified'])); sys.exit(2)
+        print('MACHINERY: %s implement Clone by hand: the clone clause of C17 is outside the supported subset (M4 covers #[derive(Clone)] only) and the bounded search found no failing input: undecided' % sorted(rep['clone_unverified'])); sys.exit(2)
     if needs_contract and not violation:
         print('MACHINERY: %s have no contract (new helper function?); the obligations %s of %s could not be discharged and the bounded search found no failing input: undecided, needs contract work' % (
             sorted(rep.get('uncontracted_fns', [])), sorted(set('%s::%s[%s]' % (f['module'], f['fn'], f['label']) for f in needs_contract)), pid)); sys.exit(2)
